@@ -83,7 +83,8 @@ def run(ctx):
         step60 = 4 if ctx.tier == 'quick' else 1
         sel = [k for k in range(0, len(allp), step60) if spec[k][0] == 'ok']
         for v6, par in [(v6, par) for v6 in ('6.0', '6.1', '6.2', '6.3') for par in (1, 2, 3, 4)]:
-            impl6, il6, raw6 = S.run_impl(ctx, [(allp[k], v6, par, S.budget_for(spec[k][1])) for k in sel], 'c12-i%sx%d' % (v6, par))
+            cap6 = 40000 if ctx.tier == 'quick' else 10 ** 9
+            impl6, il6, raw6 = S.run_impl(ctx, [(allp[k], v6, par, min(cap6, S.budget_for(spec[k][1]))) for k in sel], 'c12-i%sx%d' % (v6, par))
             cmpk, mlines = [], []
             for j, k in enumerate(sel):
                 kind = impl6[j][0]
